@@ -24,6 +24,12 @@ def run(ctx):
                           {"nodes": [{"k": "step", "fail": -1, "max": 1, "caught": True, "errmsg": ""}, {"k": "wait"},
                                      {"k": "step", "fail": -1, "max": 2, "caught": True, "errmsg": "<none>", "errtype": "ValueError"}, {"k": "wait"}]},
                           {"nodes": [{"k": "child", "caught": True, "body": [{"k": "step", "fail": -1, "max": 1, "errmsg": ""}]}, {"k": "wait"}, {"k": "step"}]},
+                          # a branch that parks on a timer and is resumed IN-PROCESS (its sibling is still running) re-traverses its body: the
+                          # operations it passes again are the same operations, and a later invocation is told the same things
+                          {"nodes": [{"k": "par", "branches": [[{"k": "step", "val": 8}, {"k": "wait", "s": 1}, {"k": "step", "val": 2}],
+                                                               [{"k": "step", "dur": 3}]]}, {"k": "wait"}, {"k": "step"}]},
+                          {"nodes": [{"k": "map", "maxc": 2, "branches": [[{"k": "step"}, {"k": "step", "fail": 1, "max": 2, "delay": 1}, {"k": "step", "val": 4}],
+                                                                          [{"k": "step", "dur": 2.5}, {"k": "wait", "s": 1}, {"k": "step"}]]}, {"k": "wait"}, {"k": "step"}]},
                           # map / parallel: small and oversized (ReplayChildren) results, early completion, failures caught by class
                           {"nodes": [{"k": "map", "branches": [[{"k": "step", "val": 2}], [{"k": "step"}, {"k": "wait"}], [{"k": "step", "val": 6}]]},
                                      {"k": "wait"}, {"k": "step"}]},
